@@ -480,7 +480,7 @@ impl OutputFormat for IcyDraw {
                                                         layer.set_char(
                                                             (x, y),
                                                             crate::AttributedChar {
-                                                                ch: unsafe { char::from_u32_unchecked(ch) },
+                                                                ch: char::from_u32(ch).unwrap_or(char::REPLACEMENT_CHARACTER),
                                                                 attribute: crate::TextAttribute {
                                                                     foreground_color: fg,
                                                                     background_color: bg,
@@ -646,7 +646,7 @@ impl OutputFormat for IcyDraw {
                                                 layer.set_char(
                                                     (x, y),
                                                     crate::AttributedChar {
-                                                        ch: unsafe { char::from_u32_unchecked(ch) },
+                                                        ch: char::from_u32(ch).unwrap_or(char::REPLACEMENT_CHARACTER),
                                                         attribute: crate::TextAttribute {
                                                             foreground_color: fg,
                                                             background_color: bg,
@@ -696,7 +696,7 @@ fn get_invisible_line_length(layer: &Layer, y: i32) -> i32 {
 
 fn read_utf8_encoded_string(data: &[u8]) -> (String, usize) {
     let size = u32::from_le_bytes(data[0..4].try_into().unwrap()) as usize;
-    (unsafe { String::from_utf8_unchecked(data[4..(4 + size)].to_vec()) }, size + 4)
+    (String::from_utf8_lossy(&data[4..(4 + size)]).into_owned(), size + 4)
 }
 
 fn write_utf8_encoded_string(data: &mut Vec<u8>, s: &str) {
